@@ -158,7 +158,8 @@ pub fn code_rest(push_state: &mut PushState, _instruction_cache: &InstructionCac
             items.pop();
             push_state.code_stack.push(Item::List { items: items });
         }
-        _ => (),
+        Some(_) => push_state.code_stack.push(Item::empty_list()),
+        None => (),
     }
 }
 
